@@ -1,6 +1,8 @@
 """C08 — stopping rule, iteration accounting, composability: op sequences of solve() on all five solvers vs Model/Solvers.lean."""
 from __future__ import annotations
 
+import os
+
 import random
 from fractions import Fraction
 
@@ -108,6 +110,22 @@ def compare_state(res, op, new, t, m, i, line, devices, total_sweeps):
             return []
         out.append(("iter/conv/sweeps", True))
         return out
+    # the convergence measure the solver logs for the last sweep of this call against the documented measure computed by the model
+    if dm.get("modelmeasure", "_") not in ("_", None) and di.get("lastmeasure") not in (None, "inf", "nan") and new["solver"] != "pi":
+        try:
+            dp = int(di.get("fmt", ".4f").strip(".f"))
+            logged, mm_ = Fraction(di["lastmeasure"]), Fraction(dm["modelmeasure"])
+            amp = 1
+            if new["solver"] == "periodic" and new["gamma"] not in ("1",):
+                amp = (1 / Fraction(new["gamma"])) ** max(0, int(di["iter"]) - 1)
+            slack = Fraction(1, 10 ** dp) + 8 * tol * amp
+            res.count("measure-compared:" + new["solver"])
+            if os.environ.get("VERIF_DEBUG_MEASURE") and new.get("gamma") == "131071/131072":
+                print("DEBUG measure", new["id"], "iter", di["iter"], "logged", di["lastmeasure"], "model", float(mm_), "dp", dp, "slack", float(slack), flush=True)
+            if abs(logged - mm_) > slack and amp < 10 ** 6:
+                out.append(("reported convergence measure", True))
+        except (ValueError, ZeroDivisionError):
+            pass
     how = session.vec_compare(mv, iv, tol)
     res.count("values:" + how)
     if how == "differ" or (how == "enveloped" and exact):
